@@ -820,6 +820,10 @@ func (r *Runner) ListVersions(q VerListReq) (string, VerListObs) {
 	if len(es) > 0 {
 		el = strings.Join(es, ",")
 	}
-	lo.Obs = fmt.Sprintf("versions trunc=%s E=%s P=%s", b01(d.IsTruncated), el, keysLine(lo.Prefixes))
+	next := "-"
+	if lo.NextKey != "" || lo.NextVer != "" {
+		next = hx(lo.NextKey) + ":" + vidOf(lo.NextVer)
+	}
+	lo.Obs = fmt.Sprintf("versions trunc=%s next=%s E=%s P=%s", b01(d.IsTruncated), next, el, keysLine(lo.Prefixes))
 	return line, lo
 }
